@@ -191,6 +191,7 @@ func cKnobs(c *ctx, dialect string, i int, o *wgenOpts, knob *string) {
 	o.noSDot, o.noAbsI, o.noDynPtr, o.noFlbU = true, true, true, true
 	o.safeDiv = dialect == "glsl"
 	o.noValIdx = dialect == "msl"
+	o.noPreLet = dialect == "msl"
 	o.contCall = c.chance(0.15)
 	o.fwdNest = c.chance(0.15)
 	ks := cRisky[dialect]
@@ -217,6 +218,8 @@ func cKnobs(c *ctx, dialect string, i int, o *wgenOpts, knob *string) {
 			o.constInit = true
 		case "valIdx":
 			o.noValIdx = false
+		case "preLet":
+			o.noPreLet, o.preLetBoost = false, true
 		case "negInit":
 			o.privInit, o.vecInit, o.negInit = true, true, true
 		}
@@ -225,7 +228,7 @@ func cKnobs(c *ctx, dialect string, i int, o *wgenOpts, knob *string) {
 
 var cRisky = map[string][]string{
 	"hlsl": {"sdot", "absI", "privInit", "vecInit", "constInit"},
-	"msl":  {"sdot", "dynPtr", "flbU", "privInit", "vecInit", "constInit", "negInit", "valIdx"},
+	"msl":  {"sdot", "dynPtr", "flbU", "privInit", "vecInit", "constInit", "negInit", "valIdx", "preLet"},
 	"glsl": {"rawDiv", "rawShift", "privInit", "vecInit", "constInit", "negInit"},
 }
 
